@@ -1035,6 +1035,13 @@ def slice_to_ascending_slice(
     if key.step is None or key.step > 0:
         return key
 
+    if (key.start is not None and key.start < 0) or (key.stop is not None and key.stop < 0):
+        # negative start, stop count from the end: normalize to positions; with a negative step, indices() gives -1 for a start or stop that precedes position zero
+        start, stop, step = key.indices(size)
+        if start < 0:
+            return EMPTY_SLICE
+        key = slice(start, None if stop < 0 else stop, step)
+
     stop = key.start if key.start is None else key.start + 1
 
     if key.step == -1:
